@@ -517,7 +517,69 @@ class _Analysis:
                     roots & self.operand_roots and self.ob.stream is None and len(self.ob.operands) >= 2
                 ):
                     return True
+        # the re-projection may sit in a private helper the operands are handed to (a part split out of this function)
+        for n in walk_own(self.fi.node):
+            if not isinstance(n, ast.Call) or call_name(n) in RECONCILE_CALLS:
+                continue
+            roots = set()
+            if isinstance(n.func, ast.Attribute):
+                roots |= self.org.roots(n.func.value)
+            for a in list(n.args) + [k.value for k in n.keywords]:
+                roots |= self.org.roots(a)
+            if len(roots & self.operand_roots) < 2:
+                continue
+            for t in self.prog.resolve_call(n, self.fi):
+                if _reconciles_inside(self.prog, t, 0):
+                    return True
         return False
+
+
+def _reconciles_inside(prog: Program, t: FuncInfo, depth: int) -> bool:
+    """A private function (or one nested in it, or a private callee, two levels) re-projects something derived from its parameters."""
+    if depth > 2 or not (t.name.startswith("_") and not t.name.startswith("__") or t.parent is not None):
+        return False
+    params = set(t.param_names())
+    org = Origins(t)
+    for n in walk_own(t.node):
+        if not isinstance(n, ast.Call):
+            continue
+        if call_name(n) in RECONCILE_CALLS:
+            roots = set()
+            if isinstance(n.func, ast.Attribute):
+                roots |= org.roots(n.func.value)
+            for a in n.args:
+                roots |= org.roots(a)
+            if roots & params:
+                return True
+        else:
+            for u in prog.resolve_call(n, t):
+                if u is not t and _reconciles_inside(prog, u, depth + 1):
+                    return True
+    return False
+
+
+def _inherits_table(prog: Program, fi: FuncInfo, _seen: Optional[Set[str]] = None) -> Optional[str]:
+    """A private function (leading underscore or nested) every call site of which is in a function the table exempts -
+    directly or through other such private functions - is a part split out of that function and shares its contract."""
+    if not (fi.name.startswith("_") and not fi.name.startswith("__") or fi.parent is not None):
+        return None
+    seen = _seen if _seen is not None else set()
+    if fi.qual in seen:
+        return None
+    seen.add(fi.qual)
+    sites = prog.callers_of(fi)
+    if not sites:
+        return None
+    via = None
+    for g, _call in sites:
+        if g.qual in TABLE:
+            via = via or g.qual
+            continue
+        up = _inherits_table(prog, g, seen)
+        if up is None:
+            return None
+        via = via or up
+    return via
 
 
 def rule_crsguard(prog: Program, modules: Optional[Set[str]] = None, must_guard: Optional[List[str]] = None) -> List[Instance]:
@@ -606,6 +668,10 @@ def rule_crsguard(prog: Program, modules: Optional[Set[str]] = None, must_guard:
         if fi.qual in TABLE and not required:
             out.append(Instance("R-CRSGUARD", cid, INFO, f"table: {TABLE[fi.qual]}", where, nontrivial=False))
             continue
+        inh = None if required else _inherits_table(prog, fi)
+        if inh is not None:
+            out.append(Instance("R-CRSGUARD", cid, INFO, f"private helper reached only from {inh}, which is exempt by the table ({TABLE[inh]}): a part split out of it", where, nontrivial=False))
+            continue
         if an.reconciles() and not required:
             out.append(Instance("R-CRSGUARD", cid, OK, f"R: re-projects one operand into the other's CRS before combining ({opsdesc})", where))
             continue
@@ -672,6 +738,10 @@ def rule_wrapname(prog: Program) -> List[Instance]:
                 else:
                     ok = True
                     why = f"returns {pn[0]}.{fi.name}({', '.join(pn[1:])})"
+        if not ok and why.startswith("body is not"):
+            # some other body (e.g. a composition of shapely calls on the raw shapes): nothing to compare a name with
+            out.append(Instance("R-WRAPNAME", cid, INFO, "decorated method with a body of its own, not a one-line delegate: not decided", fi.where(), nontrivial=False))
+            continue
         out.append(Instance("R-WRAPNAME", cid, OK if ok else BAD, why, fi.where()))
     return out
 
